@@ -104,6 +104,25 @@ theorem euclid_nonneg (p q : Pt) : 0 ≤ euclid p q := Real.sqrt_nonneg _
 
 theorem euclid_self (p : Pt) : euclid p p = 0 := by simp [euclid]
 
+theorem euclid_triangle (p q r : Pt) : euclid p r ≤ euclid p q + euclid q r := by
+  unfold euclid
+  set a := p.1 - q.1 with ha
+  set b := p.2 - q.2 with hb
+  set c := q.1 - r.1 with hc
+  set d := q.2 - r.2 with hd
+  have e : (p.1 - r.1) ^ 2 + (p.2 - r.2) ^ 2 = (a + c) ^ 2 + (b + d) ^ 2 := by
+    simp only [ha, hb, hc, hd]; ring
+  rw [e, Real.sqrt_le_iff]
+  have h1 : 0 ≤ a ^ 2 + b ^ 2 := by positivity
+  have h2 : 0 ≤ c ^ 2 + d ^ 2 := by positivity
+  refine ⟨add_nonneg (Real.sqrt_nonneg _) (Real.sqrt_nonneg _), ?_⟩
+  have cs : a * c + b * d ≤ Real.sqrt (a ^ 2 + b ^ 2) * Real.sqrt (c ^ 2 + d ^ 2) := by
+    rw [← Real.sqrt_mul h1]
+    exact Real.le_sqrt_of_sq_le (by nlinarith [sq_nonneg (a * d - b * c)])
+  have s1 := Real.sq_sqrt h1
+  have s2 := Real.sq_sqrt h2
+  nlinarith
+
 theorem linf_le_euclid (p q : Pt) : linf p q ≤ euclid p q := by
   unfold linf euclid
   apply max_le
@@ -131,7 +150,7 @@ theorem diagL2_lipschitz (p q : Pt) : diagL2 p ≤ euclid p q + diagL2 q := by
     rw [div_le_iff₀ hpos]
     by_cases hneg : (p.2 - p.1) - (q.2 - q.1) ≤ 0
     · exact hneg.trans (mul_nonneg (Real.sqrt_nonneg _) hpos.le)
-    · push_neg at hneg
+    · push Not at hneg
       rw [← Real.sqrt_mul (by positivity), ← Real.sqrt_sq hneg.le]
       apply Real.sqrt_le_sqrt
       nlinarith [sq_nonneg ((p.1 - q.1) + (p.2 - q.2))]
@@ -211,10 +230,13 @@ theorem bottleneck_vs_empty [IsEmpty N] (S : M → Pt) (T : N → Pt) (d : ℝ) 
 /-- **triangle inequality** -/
 theorem bottleneck_triangle' (R : L → Pt) (S : M → Pt) (T : N → Pt) {d1 d2 d : ℝ}
     (h1 : IsBn R S d1) (h2 : IsBn S T d2) (h : IsBn R T d) : d ≤ d1 + d2 :=
-  bottleneck_triangle (fun i j k => linf_triangle _ _ _) (fun i j => diagInf_lipschitz _ _)
+  bottleneck_triangle (cLM := cB R S) (cMN := cB S T) (cLN := cB R T) (uL := uB R) (uM := uB S)
+    (uN := uB T) (fun i j k => linf_triangle _ _ _) (fun i j => diagInf_lipschitz _ _)
     (fun j k => by
       have := diagInf_lipschitz (T k) (S j)
-      rw [linf_comm] at this; linarith) h1 h2 h
+      have e := linf_comm (T k) (S j)
+      show diagInf (T k) ≤ diagInf (S j) + linf (S j) (T k)
+      linarith) h1 h2 h
 
 /-! ### the laws of C07, Wasserstein -/
 section Ws
@@ -271,6 +293,18 @@ theorem wasserstein_scale (S : M → Pt) (T : N → Pt) {l w : ℝ} (hl : 0 ≤ 
 theorem wasserstein_vs_empty [IsEmpty N] (S : M → Pt) (T : N → Pt) :
     IsWs S T (∑ i, ((S i).2 - (S i).1) / Real.sqrt 2) :=
   isMinSum_empty_right _ _ _
+
+/-- **triangle inequality** (the middle diagram proper) -/
+theorem wasserstein_triangle' {L : Type} [Fintype L] [DecidableEq L] (R : L → Pt) (S : M → Pt) (T : N → Pt)
+    (hS : Proper S) {w1 w2 w : ℝ} (h1 : IsWs R S w1) (h2 : IsWs S T w2) (h : IsWs R T w) : w ≤ w1 + w2 :=
+  minSum_triangle (cLM := cW R S) (cMN := cW S T) (cLN := cW R T) (uL := uW R) (uM := uW S) (uN := uW T)
+    (fun i j k => euclid_triangle _ _ _) (fun i j => diagL2_lipschitz _ _)
+    (fun j k => by
+      have := diagL2_lipschitz (T k) (S j)
+      have e := euclid_comm (T k) (S j)
+      show diagL2 (T k) ≤ diagL2 (S j) + euclid (S j) (T k)
+      linarith)
+    (fun _ _ => euclid_nonneg _ _) (fun j => diagL2_nonneg (hS j)) h1 h2 h
 
 /-- **the bottleneck distance never exceeds the Wasserstein distance** (proper diagrams) -/
 theorem bottleneck_le_wasserstein (S : M → Pt) (T : N → Pt) (hS : Proper S) (hT : Proper T) {d w : ℝ}
